@@ -759,6 +759,27 @@ package getoptions
 //@   ensures reqfloat.ok: len(args) >= 1 && pf_ok(args[0]) ==> result0 == pf_val(args[0]) && result2 == nil
 //@   ensures reqfloat.bad: len(args) >= 1 && !pf_ok(args[0]) ==> result2 != nil
 
+// The help command that HelpCommand places under a node (C11: it runs the help of its parent or of a sibling topic;
+// C17: its suggestions are exactly the names of the siblings). Only this constructor closure is under contract; that
+// HelpCommand applies it to every node of the tree (runOnParentAndChildrenCommands with function arguments) is not.
+//@ func (*GetOpt).HelpCommand$1
+//@   props C11 C17 C19
+//@   requires helpcmd.pre: parent != nil && parent.ChildCommands != nil && (forall k string :: (k in parent.ChildCommands) ==> parent.ChildCommands[k] != nil) && parent.Level < 1000000
+//@   maypanic helpcmd.dup: name == "" || (name in parent.ChildCommands)
+//@   allocates GetOpt, programTree, map[string]*programTree, map[string]*option.Option, []string
+//@   modifies mapof(parent.ChildCommands)
+//@   ensures helpcmd.node {C11,C17}: (name in parent.ChildCommands) && fresh(parent.ChildCommands[name]) && parent.ChildCommands[name].Name == name
+//@     && parent.ChildCommands[name].HelpCommandName == name && parent.ChildCommands[name].Parent == parent && parent.ChildCommands[name].Level == parent.Level + 1
+//@     && parent.ChildCommands[name].ChildOptions != nil && parent.ChildCommands[name].ChildCommands != nil
+//@   ensures helpcmd.kept {C11}: forall k string :: (k in parent.ChildCommands) == (old(k in parent.ChildCommands) || k == name)
+//@     && (k != name ==> parent.ChildCommands[k] == old(parent.ChildCommands[k]))
+//@   ensures helpcmd.sug.complete {C17}: forall k string :: old(k in parent.ChildCommands) && k != name ==> inseq(k, parent.ChildCommands[name].Suggestions)
+//@   ensures helpcmd.sug.sound {C17}: forall i int :: 0 <= i && i < len(parent.ChildCommands[name].Suggestions) ==>
+//@     (parent.ChildCommands[name].Suggestions[i] in old(dom(parent.ChildCommands))) && parent.ChildCommands[name].Suggestions[i] != name
+//@   loop "for k := range parent.ChildCommands"
+//@     invariant sug.complete {C17}: forall q string :: (q in $seen) && q != name ==> inseq(q, suggestions)
+//@     invariant sug.sound {C17}: forall i int :: 0 <= i && i < len(suggestions) ==> (suggestions[i] in parent.ChildCommands) && suggestions[i] != name
+
 // ---- typed definers (generated by /verif/tools/gen_definer_contracts.py; one uniform contract per kind) ----
 // A definer registers a fresh record under the name, wires the caller's variable as its receiver, writes the
 // default once, and then applies the modifiers. It may panic only on an invalid definition.
